@@ -251,50 +251,74 @@ func init() {
 						if nl > maxL {
 							continue
 						}
-						sh = append(sh, vShard{Name: fmt.Sprintf("ivf/%s/d%d/nlist%d", metric, d, nl), Run: func(c *vCtx) {
-							alpha := vC13TrainAlphabet(d)
-							for ti, seq := range vSequences(len(alpha), nl, maxL) {
-								if c.Expired() {
-									c.Bound += fmt.Sprintf(" (deadline: %d training sets done)", ti)
-									return
-								}
-								train := make([][]float32, len(seq))
-								for i, a := range seq {
-									train[i] = alpha[a]
-								}
-								cfg := vVecCfg{Kind: "ivf", Metric: metric, Dim: d, NList: nl, Train: -1}
-								s := newKindSys(c, cfg, 3)
-								s.train = train
-								s.cfgS = cfg.String() + " trainseq=" + strings.ReplaceAll(fmt.Sprint(seq), " ", ",")
-								s.hook = vC13Hook
-								s.noMulti = true
-								vBFS(c, s, depth)
-								// aliasing mode: the caller adds the very slices it trained on
-								// (non-zero training vectors only; the value alphabet = the training set)
-								zero := false
-								for _, v := range train {
-									if vIsZero(v) {
-										zero = true
+						parts := 1
+						if d == 2 {
+							parts = 3
+						}
+						for part := 0; part < parts; part++ {
+							part := part
+							sh = append(sh, vShard{Name: fmt.Sprintf("ivf/%s/d%d/nlist%d/part%d", metric, d, nl, part), Run: func(c *vCtx) {
+								alpha := vC13TrainAlphabet(d)
+								for ti, seq := range vSequences(len(alpha), nl, maxL) {
+									if ti%parts != part {
+										continue
+									}
+									if c.Expired() {
+										c.Bound += fmt.Sprintf(" (deadline: %d training sets done)", ti)
+										return
+									}
+									train := make([][]float32, len(seq))
+									for i, a := range seq {
+										train[i] = alpha[a]
+									}
+									cfg := vVecCfg{Kind: "ivf", Metric: metric, Dim: d, NList: nl, Train: -1}
+									s := newKindSys(c, cfg, 3)
+									s.train = train
+									s.cfgS = cfg.String() + " trainseq=" + strings.ReplaceAll(fmt.Sprint(seq), " ", ",")
+									s.hook = vC13Hook
+									s.noMulti = true
+									s.noPrepared = true
+									vBFS(c, s, depth)
+									// aliasing mode: the caller adds the very slices it trained on
+									// (non-zero training vectors only; the value alphabet = the training set)
+									zero := false
+									for _, v := range train {
+										if vIsZero(v) {
+											zero = true
+										}
+									}
+									if !zero && len(seq) <= nl+1 {
+										a := newKindSys(c, cfg, 3)
+										a.train = train
+										a.vals = train
+										a.aliasTrain = true
+										a.cfgS = cfg.String() + " alias trainseq=" + strings.ReplaceAll(fmt.Sprint(seq), " ", ",")
+										a.hook = vC13Hook
+										a.noMulti = true
+										a.noPrepared = true
+										vBFS(c, a, depth)
 									}
 								}
-								if !zero && len(seq) <= nl+1 {
-									a := newKindSys(c, cfg, 3)
-									a.train = train
-									a.vals = train
-									a.aliasTrain = true
-									a.cfgS = cfg.String() + " alias trainseq=" + strings.ReplaceAll(fmt.Sprint(seq), " ", ",")
-									a.hook = vC13Hook
-									a.noMulti = true
-									vBFS(c, a, depth)
-								}
-							}
-						}})
+							}})
+						}
 					}
 				}
+			}
+			// large instances (hundreds to thousands of vectors, k up to n)
+			for _, cfg := range []vVecCfg{{Kind: "ivf", Metric: Euclidean, Dim: 2, NList: 4, Train: 2}, {Kind: "ivf", Metric: Cosine, Dim: 3, NList: 3, Train: 2}, {Kind: "ivf", Metric: L2Squared, Dim: 3, NList: 5, Train: 2}} {
+				cfg := cfg
+				sh = append(sh, vShard{Name: "large/" + strings.ReplaceAll(cfg.String(), " ", ","), Run: func(c *vCtx) { vKindLarge(c, cfg, vLargeSizes(tier), vC13Hook) }})
 			}
 			return sh
 		},
 		Replay: func(c *vCtx, v *vViolation) bool {
+			if i := strings.Index(v.Config, " large n="); i >= 0 {
+				var n int
+				fmt.Sscanf(v.Config[i:], " large n=%d", &n)
+				vKindLarge(c, vParseVecCfg(v.Config[:i]), []int{n}, vC13Hook)
+				_, ok := c.viol[v.Sig()]
+				return ok
+			}
 			if strings.HasPrefix(v.Config, "ivf untrained") {
 				vC13Untrained(c)
 				_, ok := c.viol[v.Sig()]
@@ -323,6 +347,7 @@ func init() {
 			s.cfgS = v.Config
 			s.hook = vC13Hook
 			s.noMulti = true
+			s.noPrepared = true
 			vReplayHist(s, v.History)
 			_, ok := c.viol[v.Sig()]
 			return ok
